@@ -828,3 +828,13 @@ PROPS["C12"]["claim"] += (" Since C12Typed the other half is proved as well, on 
     "of v's own type as exactly what it reads from the first document, i.e. the specified value (token level; CBOR byte level; JSON "
     "byte level for typed targets without floats). With tagged entries the chain is evaluated on examples and tied by the stream; an atlas "
     "that registers one tag twice breaks it (kernel-checked example).")
+
+# C12: the typed leg with tagged entries
+PROPS["C12"]["theorems"] += ["Refmt.C12Tagged.remarshal_typed_leg_tokens_tagged", "Refmt.C12Tagged.remarshal_idempotent",
+                             "Refmt.C12Tagged.remarshal_typed_leg_cbor_tagged", "Refmt.C12Tagged.tagged_statement_false"]
+PROPS["C12"]["extra_modules"] += ["RefmtProofs.Props.C12Tagged"]
+PROPS["C12"]["claim"] += (" Since C12Tagged the typed leg also covers atlases with tagged entries (the untyped pass reconstructs the registered "
+    "type and re-marshals it through the typed machine), under TagsOk (each tagged entry is found under its own tag) and TagStab (below a "
+    "tagged type: omitempty only on fields whose emptiness the round trip cannot change; transform pairs are retractions); without "
+    "TagStab the statement is false in the model in exactly the way the property's equality tolerates (empty vs nil under omitempty): "
+    "tagged_statement_false.")
